@@ -18,7 +18,7 @@ ASSUMPTIONS = ['no schedule dimension', 'start record: the statement says "top -
 PROBES = ['meta_only_step']
 PLAN = {
   'quick': {'strata': {'trace': 5000, 'meta': 1500}, 'wall_s': 300, 'chunk': 100, 'min_conclusive': 1000},
-  'thorough': {'strata': {'trace': 120000, 'meta': 40000}, 'wall_s': 900, 'chunk': 250, 'min_conclusive': 10000},
+  'thorough': {'strata': {'trace': 120000, 'meta': 40000}, 'wall_s': 900, 'chunk': 250, 'min_conclusive': 1000},
 }
 ORACLES = [co.check_trace]
 COMBOS = [c for c in cc.COMBOS if c[0] != 'plain' and c[1] != 'closure']
